@@ -98,6 +98,7 @@ type peMon struct {
 	createdOK  map[string]bool
 	delFaulted map[string]bool // interfaces whose delete call failed by injection
 	inGC       bool
+	inDeposed  bool // a deposed leader's reconcile is running
 	edges      map[string]int
 	guarded    int
 }
@@ -318,7 +319,12 @@ func (m *peMon) OnInvoke(c *cloudsim.CtrlCloud, call *cloudsim.CCall) {
 	}
 	if owner != nil {
 		uid := owner.Annotations[types.PodUID]
-		if p := m.byUID[uid]; p.live() && (peState(owner) == "bound" || peState(owner) == "binding" || peState(owner) == "initial" || peState(owner) == "detaching" || peState(owner) == "deleting") {
+		if m.inDeposed {
+			// a process that lost the lease and acts on a view of unbounded age can call the cloud whatever the
+			// API server holds: nothing on the record can stop it (the lease's renew deadline bounds it in the
+			// product). Its API-server writes and what the live leader makes of them stay judged.
+			m.r.Count("deposed_leader_cloud_calls_not_judged", 1)
+		} else if p := m.byUID[uid]; p.live() && (peState(owner) == "bound" || peState(owner) == "binding" || peState(owner) == "initial" || peState(owner) == "detaching" || peState(owner) == "deleting") {
 			// the pod instance the record is bound to is still running
 			if peState(owner) != "initial" && peState(owner) != "binding" || call.API == "DeleteNetworkInterface" {
 				m.violate("C10", "C10.eni-pulled-from-live-pod", call.API+"/"+peState(owner), fmt.Sprintf("%s of %s while record %s (%s) is bound to pod uid %s, which is still running on %s", call.API, call.ENI, owner.Name, peState(owner), uid, p.Node))
@@ -857,6 +863,14 @@ func (h *peHist) deliverDeposed(name string, eni bool) {
 	h.mon.note("deliver to the deposed leader (snapshot %d of %d) podeni=%v %s", asOf, now, eni, name)
 	h.mon.r.Count("deposed_leader_deliveries", 1)
 	req := reconcile.Request{NamespacedName: k8stypes.NamespacedName{Namespace: "ns", Name: name}}
+	h.mon.mu.Lock()
+	h.mon.inDeposed = true
+	h.mon.mu.Unlock()
+	defer func() {
+		h.mon.mu.Lock()
+		h.mon.inDeposed = false
+		h.mon.mu.Unlock()
+	}()
 	h.safe("deposed", func() {
 		if eni {
 			_, _ = h.dectl.Reconcile(context.Background(), req)
@@ -871,6 +885,14 @@ func (h *peHist) deliverDeposedAt(name string, eni bool) {
 	h.mon.note("deliver to the deposed leader (snapshot %d) podeni=%v %s", h.dcache.asOf, eni, name)
 	h.mon.r.Count("deposed_leader_deliveries", 1)
 	req := reconcile.Request{NamespacedName: k8stypes.NamespacedName{Namespace: "ns", Name: name}}
+	h.mon.mu.Lock()
+	h.mon.inDeposed = true
+	h.mon.mu.Unlock()
+	defer func() {
+		h.mon.mu.Lock()
+		h.mon.inDeposed = false
+		h.mon.mu.Unlock()
+	}()
 	h.safe("deposed", func() {
 		if eni {
 			_, _ = h.dectl.Reconcile(context.Background(), req)
